@@ -1,7 +1,7 @@
 #!/venv/bin/python
 """Self-test of check C10: apply one realistic seeded break by monkeypatching (never editing /repo), run a part
 of the check in-process and print the witness keys.
-Usage: PYTHONHASHSEED=0 /venv/bin/python seeded/c10_breaks.py [name ...]
+Usage: PYTHONHASHSEED=0 /venv/bin/python tools/selftest_c10.py [name ...]
 """
 
 from __future__ import annotations
